@@ -204,6 +204,28 @@ func (c *Ctx) hasAlarms() bool {
 	return false
 }
 
+// countAlarms: number of failing/undecided obligations that are not listed known findings.
+func (c *Ctx) countAlarms() int {
+	n := len(c.fatal)
+	for _, o := range c.Obs {
+		if o.Status != "fail" && o.Status != "undecided" {
+			continue
+		}
+		known := false
+		if o.Status == "fail" {
+			for _, k := range c.Known {
+				if k.Rule == o.Rule && k.Construct == o.Construct {
+					known = true
+				}
+			}
+		}
+		if !known {
+			n++
+		}
+	}
+	return n
+}
+
 func (c *Ctx) finish() int {
 	sort.SliceStable(c.Obs, func(i, j int) bool {
 		if c.Obs[i].Rule != c.Obs[j].Rule {
